@@ -913,3 +913,10 @@ SUBS = [
     Sub("graph", strategy, run, quick=12000, thorough=400000,
         about="op-list histories on Nexus/nodes vs from-scratch reference interpreter + recomputation oracle on call counters"),
 ]
+
+
+def extra(tier, seed):
+    """thorough tier: coverage-guided campaign (atheris / libFuzzer) over the same strategy and oracle, see kverif/fuzz.py"""
+    from ..fuzz import thorough_extra
+
+    return thorough_extra(PROPERTY, [("graph", 30000, 16)], tier, seed)
